@@ -82,19 +82,42 @@ func TestVerifC18(t *testing.T) {
 		nOpt = 300
 	}
 	// ---- client option lists -> ConnectOptions
+	type copt struct {
+		kind int // 0 read limit, 1 write timeout, 2 other
+		v    int64
+	}
+	var clists [][]copt
 	for i := 0; i < nOpt; i++ {
-		var opts []DialOption
-		var coq []string
+		var l []copt
 		for j, n := 0, r.Intn(5); j < n; j++ {
 			switch r.Intn(4) {
 			case 0, 1:
-				v := vC18Vals[r.Intn(len(vC18Vals))]
-				opts = append(opts, WithReadLimit(v))
-				coq = append(coq, "DReadLimit "+vCoqZ(v))
+				l = append(l, copt{0, vC18Vals[r.Intn(len(vC18Vals))]})
 			case 2:
-				v := vC18Durs[r.Intn(len(vC18Durs))]
-				opts = append(opts, WithWriteTimeout(time.Duration(v)))
-				coq = append(coq, "DWriteTimeout "+vCoqZ(v))
+				l = append(l, copt{1, vC18Durs[r.Intn(len(vC18Durs))]})
+			default:
+				l = append(l, copt{2, 0})
+			}
+		}
+		clists = append(clists, l)
+	}
+	// every pair of a read limit and a write timeout, in both orders
+	for _, rl := range []int64{0, 1, 65536, 100_000_000, 123456789, -1} {
+		for _, d := range []int64{0, 1, int64(time.Second), int64(10 * time.Second), -1} {
+			clists = append(clists, []copt{{0, rl}, {1, d}}, []copt{{1, d}, {0, rl}})
+		}
+	}
+	for _, cl := range clists {
+		var opts []DialOption
+		var coq []string
+		for _, o := range cl {
+			switch o.kind {
+			case 0:
+				opts = append(opts, WithReadLimit(o.v))
+				coq = append(coq, "DReadLimit "+vCoqZ(o.v))
+			case 1:
+				opts = append(opts, WithWriteTimeout(time.Duration(o.v)))
+				coq = append(coq, "DWriteTimeout "+vCoqZ(o.v))
 			default:
 				opts = append(opts, WithLogger(vQuietLogger{}))
 				coq = append(coq, "DOther")
@@ -129,17 +152,41 @@ func TestVerifC18(t *testing.T) {
 		vEmit(c)
 	}
 	// ---- server option lists -> ServerConfig (needs one real connection each)
+	type sopt struct {
+		kind int // 0 read limit, 1 write timeout, 2 other
+		v    int64
+	}
+	var slists [][]sopt
 	for i := 0; i < nOpt; i++ {
-		var opts []ServerOption
-		var coq []string
+		var l []sopt
 		for j, n := 0, r.Intn(4); j < n; j++ {
 			switch r.Intn(4) {
 			case 0, 1:
-				v := vC18Vals[r.Intn(len(vC18Vals))]
-				opts = append(opts, WithWSReadLimit(v))
-				coq = append(coq, "SReadLimit "+vCoqZ(v))
+				l = append(l, sopt{0, vC18Vals[r.Intn(len(vC18Vals))]})
 			case 2:
-				v := vC18Durs[r.Intn(len(vC18Durs))]
+				l = append(l, sopt{1, vC18Durs[r.Intn(len(vC18Durs))]})
+			default:
+				l = append(l, sopt{2, 0})
+			}
+		}
+		slists = append(slists, l)
+	}
+	// every pair of a read limit and a write timeout, in both orders: what one option sets does not depend on the other
+	for _, rl := range []int64{0, 1024, 65536, 10_000_000, 100_000_000, 123456789, -1} {
+		for _, d := range []int64{0, int64(50 * time.Millisecond), int64(time.Second), int64(10 * time.Second), int64(time.Minute)} {
+			slists = append(slists, []sopt{{0, rl}, {1, d}}, []sopt{{1, d}, {0, rl}})
+		}
+	}
+	for _, sl := range slists {
+		var opts []ServerOption
+		var coq []string
+		for _, o := range sl {
+			switch o.kind {
+			case 0:
+				opts = append(opts, WithWSReadLimit(o.v))
+				coq = append(coq, "SReadLimit "+vCoqZ(o.v))
+			case 1:
+				v := o.v
 				if v < int64(50*time.Millisecond) {
 					v = 0 // the value is also the HTTP read timeout of the handshake: tiny or negative ones make no session at all
 				}
